@@ -26,6 +26,7 @@ func init() {
 				"R3.trailing": "trailing data refused; RSA arm lenient on parameters but strict on modulus/exponent",
 				"R4.modhex":   "ModHex arms {3:offset 2, 4:offset 0}, nibble mapping, failure cases",
 				"R5.pem":      "PEM bundle loop: rest handling, white-space end, ordered append",
+				"R6.fields":   "field-source table of the parsed certificate (raw bytes, signature, algorithm, serial, validity, version, names)",
 				"R2.tables":   "OID / algorithm tables equal to crypto/x509's source tables",
 				"R4.alphabet": "ModHex alphabet, 4-bit masking, serial extension OID",
 			},
@@ -59,6 +60,7 @@ func runC16(c *Ctx) {
 // c16Structure: R3 (trailing data / RSA leniency), R4 (ModHex arms and byte mapping), R5 (PEM loop).
 func c16Structure(c *Ctx) {
 	w := c.w
+	c16FieldSources(c)
 	// ---- R3 ----
 	if pc := w.Func(attestPkg, "ParseCertificate"); pc != nil {
 		f := w.Facts(pc)
@@ -364,8 +366,8 @@ func c16Structure(c *Ctx) {
 			c.Check(nPad == 2, "R4.modhex", "ModHex|old serials padded with two zero digits", w.FnPos(mh), "dst[0], dst[1] = alphabet[0]", "the 3-byte form is not padded with two ModHex zero digits")
 			// serial = ext.Value[2:] of the matching extension; absent -> error; other lengths -> error
 			sx := w.Expr(serial)
-			okSerial := strings.Contains(sx, ".Value[const(2):]") || strings.Contains(sx, "var<[]byte>") || strings.Contains(sx, "phi{")
-			if !okSerial {
+			okSerial := false
+			{
 				// produced by a helper: every value it may yield is nil or ext.Value[2:]
 				nSl := 0
 				okSerial = true
